@@ -221,6 +221,32 @@ def gen_reopen_histories(rng, uid, full):
     return out
 
 
+def gen_deferred_histories(uid):
+    """declarations whose checking is deferred (typed constants, typedefs, class headers) around a rejected input: the
+    checker memoises copies of its scope stacks for them. Each history runs in a worker process of its own."""
+    out = []
+    U = f"{uid}z"
+    out.append([f"def five{U}: Int; 5; end",
+                f"const Ghost{U}: Int = five{U}(); nope{U}()",
+                f"const B{U}: Int = Ghost{U} + five{U}()",
+                f"const C{U}: Int = five{U}()",
+                f"const D{U}: Int = C{U} + five{U}()",
+                f"println(D{U}.inspect)"])
+    out.append([f"def six{U}: Int; 6; end",
+                f"typedef TG{U} = Int; nope{U}()",
+                f"var xg{U}: TG{U} = 1",
+                f"def seven{U}: Int; 7; end",
+                f"const E{U}: Int = seven{U}() + six{U}()",
+                f"println(E{U}.inspect)"])
+    out.append([f"class RG{U}; def m: Int; 1; end; end",
+                f"class RH{U} < RG{U}; end; const GH{U}: Int = 1; nope{U}()",
+                f"println(RH{U}().m)",
+                f"class RI{U} < RG{U}; def n: Int; 2; end; end",
+                f"const F{U}: Int = RI{U}().n + RG{U}().m",
+                f"println(F{U}.inspect)"])
+    return out
+
+
 # ---------------------------------------------------------------- execution
 
 def run_sessions(reqs, workers=4, timeout=900, sub="repl"):
@@ -519,6 +545,14 @@ def run(ctx):
                     ok_batch = False
                 else:
                     reported -= 1
+    if not ctx.replay:
+        for k, h in enumerate(gen_deferred_histories(f"{ctx.seed}")):
+            rec = evaluate([h], [f"{ctx.seed}d{k}"])[0]
+            ctx.case(tuple(h), nontrivial=True, sample={"history": h[:6]})
+            ctx.stat("deferred-declaration-histories")
+            for kind, detail, inp in rec["fails"]:
+                if ctx.violation(kind, inp, detail):
+                    ok_batch = False
     ctx.obligation(f"real REPL session = batch of accepted inputs, rejected inputs leave no trace, on {len(hs)} generated histories",
                    ok_batch, "correspondence")
     if model_hs:
